@@ -225,6 +225,18 @@ def main(tier):
                 res_[ev_] = loop_step(a_["term"], {X_: ("X",), B_: ("B",)}) if a_ else None
             ht = models["eval_decimal"].tb.helper_term(helper)
             res_["eval_decimal"] = loop_step(ht, roles) if ht is not None else None
+            if label == "lambert_w":
+                # w(x) e^w(x) = x within 1e-9 for every finite x >= -1/e: the Halley iteration must be able to run until it has
+                # converged -- an exit test on the correction / residual -- or start from a value that depends on x.  A constant
+                # start and a step count that is a function of log10(x)/3 only is too short once w(x) is a few units away
+                for ev_, ls_ in res_.items():
+                    if ls_ is None:
+                        continue
+                    const_start = all(isinstance(i_, tuple) and i_ and i_[0] == "num" for i_ in ls_["init"])
+                    okc = ls_["exit"] is not None or not const_start
+                    run.ob(okc, "lambert-convergence|%s" % ev_, "C10 w(x): the iteration runs until it has converged (exit test on the correction) or starts from an x-dependent estimate",
+                           "%s Lambert W" % ev_, "constant start %s, no exit test, %s steps: w(100) is off by 1.2e-3 relative, w(1000000) by 99.9%%" % (T.show(ls_["init"])[:40], T.show(ls_["range"])[:120]),
+                           sample={"evaluator": ev_, "start": T.show(ls_["init"])[:40], "steps": T.show(ls_["range"])[:100], "exit_test": ls_["exit"] is not None})
             probs = compare(res_) if all(v is not None for v in res_.values()) else ["a copy has no recognisable loop: %s" % [k for k, v in res_.items() if v is None]]
             run.ob(not probs, "sibling|%s" % label, "C10 the f64, Number and Decimal copies of %s are the same iteration (initial state, exit test, update, iteration cap) after type erasure" % label,
                    "eval_f64 / eval_number / eval_decimal: %s" % label, "; ".join(probs)[:500], sample={"sibling": label, "update": T.show(res_["eval_f64"]["updates"])[:160] if res_.get("eval_f64") else None})
